@@ -51,9 +51,12 @@ def run (cache : Cache) (op : String) (args : List String) (impl : String) : Opt
     match op, rest with
     | "consts", [] =>
       -- R, R2, INV, spare, nocarry as the flavour computes them
-      let m := s!"{hex (value c.r)} {hex (value c.r2)} {hex c.inv} {boolStr c.spare} {boolStr c.noCarry}"
+      -- the constant `CAN_USE_NO_CARRY_MUL_OPT` is always the trait's predicate (the derive
+      -- macro bakes its own, stricter predicate into the generated code instead)
+      let traitNoCarry := (mkCfg false nn pv).noCarry
+      let m := s!"{hex (value c.r)} {hex (value c.r2)} {hex c.inv} {boolStr c.spare} {boolStr traitNoCarry}"
       let invSpec := (B - modInv (pv % B) B) % B
-      let s := s!"{hex R} {hex ((R * R) % pv)} {hex invSpec} {boolStr (decide (pv < B ^ nn / 2))} {boolStr c.noCarry}"
+      let s := s!"{hex R} {hex ((R * R) % pv)} {hex invSpec} {boolStr (decide (pv < B ^ nn / 2))} {boolStr (decide (pv < B ^ nn / 2) && pv != B ^ nn / 2 - 1)}"
       out m s
     | "add", [a, b] =>
       let a ← parseHex? a; let b ← parseHex? b
